@@ -37,14 +37,58 @@ def short(path):
     return path
 
 
+class _Uniq(dict):
+    """roles object under which every local prints as its unique MIR name `_N` (needed when
+    facts about one variable must never be confused with another of the same type)."""
+
+    def __contains__(self, k):
+        return True
+
+    def __getitem__(self, k):
+        return "_%d" % k
+
+    def __bool__(self):
+        return True
+
+    def get(self, k, d=None):
+        return "_%d" % k
+
+
+UNIQ = _Uniq()
+
+
+def _pure(e):
+    for x in e.walk():
+        if isinstance(x, Var):
+            if not x.is_arg or (x.ty or "").startswith("&mut"):
+                return False
+        if isinstance(x, (Unknown, Upvar)):
+            return False
+        if isinstance(x, Call) and nice(x.callee) not in PURE_CALLS:
+            return False
+    return True
+
+
+PURE_CALLS = {"str::as_bytes", "String::as_bytes", "Vec::as_slice", "String::as_str", "Deref::deref", "From::from",
+              "Into::into", "AsRef::as_ref", "Vec::len", "str::len", "slice::len", "String::len", "Option::as_deref",
+              "Option::as_ref", "mem::size_of", "Borrow::borrow", "slice::is_empty", "str::is_empty", "Vec::is_empty"}
+
+
 def shape(e, roles=None, depth=20):
     """Canonical string of an expression. roles: {local_index: role_name}.
     Looks through names, refs/derefs, copies; normalises commutative operands and
     comparison orientation (greater-than forms are rewritten to less-than forms)."""
-    roles = roles or {}
+    if roles is None:
+        roles = {}
     if depth <= 0:
         return "..."
     if isinstance(e, Named):
+        if isinstance(roles, _Uniq):
+            # expand immutable bindings whose value is a pure function of the arguments
+            # (canonical form); keep the unique local name otherwise
+            if _pure(e.x):
+                return shape(e.x, roles, depth)
+            return "_%d" % e.local
         if e.local in roles:
             return roles[e.local]
         return shape(e.x, roles, depth)
@@ -191,8 +235,9 @@ def callee_matches(t, *suffixes):
     """True if the callee (declared or resolved) ends with one of the suffixes."""
     for p in (t.get("callee"), t.get("resolved")):
         if p:
+            n = nice(p)
             for s in suffixes:
-                if p == s or p.endswith("::" + s) or p.endswith(s):
+                if p == s or p.endswith("::" + s) or p.endswith(s) or n == s or n == nice(s):
                     return True
     return False
 
